@@ -74,7 +74,8 @@ def main():
                     print('      %s %s' % (c, k[:150]))
             for c in err[:2]:
                 print('      %s %s' % (c, res[c]['error'][0][:200] if res[c]['error'] else ''))
-    json.dump(out, open(os.path.join(HERE, 'seeded_results.json'), 'w'), indent=1, sort_keys=True)
+    name = 'seeded_results.json' if base == os.path.join(HERE, 'seeded') else '%s_results.json' % os.path.basename(base.rstrip('/'))
+    json.dump(out, open(os.path.join(HERE, name), 'w'), indent=1, sort_keys=True)
 
 
 if __name__ == '__main__':
